@@ -107,6 +107,9 @@ pub enum Cls {
     W,
     /// width-1 letters, first letter of every word followed by U+0301
     C,
+    /// width-2 ideographs, the first of every word followed by U+0301 (a zero-width character
+    /// right after a wide one)
+    V,
     /// width-1 letters; the text node *starts* with U+0301 (a combining mark as the first
     /// character of a piece, e.g. right after an inline element boundary)
     M,
@@ -136,7 +139,7 @@ impl Txt {
             s.push(' ');
         }
         let ch = match self.cls {
-            Cls::W => wide_pool()[label % wide_pool().len()],
+            Cls::W | Cls::V => wide_pool()[label % wide_pool().len()],
             _ => narrow_pool()[label % narrow_pool().len()],
         };
         if self.cls == Cls::M && !self.lead {
@@ -148,7 +151,7 @@ impl Txt {
             }
             for k in 0..n.max(1) {
                 s.push(ch);
-                if k == 0 && self.cls == Cls::C {
+                if k == 0 && matches!(self.cls, Cls::C | Cls::V) {
                     s.push(COMBINING);
                 }
             }
@@ -161,7 +164,7 @@ impl Txt {
     /// Display width of the widest word.
     pub fn max_word_width(&self) -> usize {
         let m = self.words.iter().map(|&n| n.max(1) as usize).max().unwrap_or(0);
-        if self.cls == Cls::W {
+        if matches!(self.cls, Cls::W | Cls::V) {
             2 * m
         } else {
             m
@@ -808,7 +811,7 @@ pub fn census(blocks: &[Block]) -> Census {
             match i {
                 Inline::Text(t) => {
                     c.text_nodes += 1;
-                    if t.cls == Cls::W {
+                    if matches!(t.cls, Cls::W | Cls::V) {
                         c.wide += 1;
                     }
                 }
@@ -988,7 +991,7 @@ pub fn txt(g: &G) -> BoxedStrategy<Txt> {
         (1u8..=8).boxed()
     };
     let cls = if g.wide {
-        prop_oneof![16 => Just(Cls::N), 4 => Just(Cls::W), 2 => Just(Cls::C), 1 => Just(Cls::M)].boxed()
+        prop_oneof![16 => Just(Cls::N), 4 => Just(Cls::W), 2 => Just(Cls::C), 1 => Just(Cls::M), 1 => Just(Cls::V)].boxed()
     } else {
         Just(Cls::N).boxed()
     };
@@ -1013,6 +1016,8 @@ pub fn href() -> BoxedStrategy<String> {
         2 => "[a-z0-9./]{1,30}",
         1 => "[a-z]{30,70}".prop_map(|s| format!("https://example.com/{}", s)),
         1 => Just("#".to_string()),
+        // a line feed inside the target (rendered as a space in the footnote)
+        1 => "[a-z/.]{1,14}\n[a-z/.]{1,14}",
     ]
     .boxed()
 }
@@ -1370,6 +1375,19 @@ pub const SPLICES: &[&str] = &[
     " name=zz",
     " style=\"color:#f00\"",
     " class=\"a b\"",
+    // legacy colour attributes (honoured with use_doc_css), well- and ill-formed
+    " color=\"#00aabb\"",
+    " bgcolor=00aabb",
+    " bgcolor=\"f\u{e9}0000\"",
+    " color=\"\u{e9}\u{e9}\u{e9}\u{e9}\"",
+    " bgcolor=\"ab\u{4e2d}cdef\"",
+    " color=red",
+    " bgcolor=\"#zz\"",
+    " style=\"color:red;;display:none\"",
+    " style=\"height:0;overflow:hidden\"",
+    " href=\"a&#10;b\"",
+    "&#10;",
+    "&#13;",
     // sequences whose string width differs from the sum of their character widths
     "\u{263a}\u{fe0f}",
     "\u{1F468}\u{200D}\u{1F469}\u{200D}\u{1F467}",
